@@ -63,8 +63,8 @@ theorem digitsToNat?_natDigits (n : Nat) : digitsToNat? (natDigits n) = some n :
 /-! ## shape of the printed form -/
 
 /-- `String()` prints: '-' iff negative; the integer part in decimal, at least one digit and no superfluous
-leading zero (it is "0" — exactly when |a| < 1 — or does not start with '0'); '.'; exactly `BigDecPrecision` (36) fractional digits;
-the digit strings denote `|a| / 10^36` and `|a| % 10^36`. -/
+leading zero (it is "0" — exactly when |a| < 1 — or does not start with '0'); '.'; exactly
+`BigDecPrecision` (36) fractional digits; the digit strings denote `|a| / 10^36` and `|a| % 10^36`. -/
 theorem toStr_shape (a : Int) :
     ∃ ip fp : List Char,
       BigDec.toStr a = (if a < 0 then "-" else "") ++ String.ofList ip ++ "." ++ String.ofList fp ∧
@@ -220,6 +220,11 @@ theorem fromStr_in_range {s : String} {v : Int} (h : BigDec.fromStr s = some v) 
     v.natAbs < 2 ^ Osmomath.maxBitLen := by
   obtain ⟨_, _, _, _, _, _, _, _, _, h7⟩ := (fromStr_eq_some_iff s v).1 h
   exact h7
+
+/-- whatever the decoder accepts survives re-encoding: decode ∘ encode ∘ decode = decode. -/
+theorem fromStr_toStr_of_decoded {s : String} {v : Int} (h : BigDec.fromStr s = some v) :
+    BigDec.fromStr (BigDec.toStr v) = some v :=
+  (fromStr_toStr_iff v).2 (fromStr_in_range h)
 
 /-! ## 18-decimal type: `LegacyDec.String` / `NewDecFromStr` are NOT modelled (`Model/Num.lean` has no
 `Dec.toStr` / `Dec.fromStr`, and the `num` engine has no such op), so there is nothing to state here.  The
